@@ -40,6 +40,13 @@ def take(root, digest=True):
             elif stat.S_ISLNK(st.st_mode):
                 rec["type"] = "l"
                 rec["target"] = os.readlink(p)
+                try:
+                    ts = os.stat(p)
+                    rec["tid"] = (ts.st_dev, ts.st_ino)
+                    rec["tsha"] = sha(p) if digest and stat.S_ISREG(ts.st_mode) else None
+                except OSError:
+                    rec["tid"] = None
+                    rec["tsha"] = None
             elif stat.S_ISREG(st.st_mode):
                 rec["type"] = "f"
                 if digest:
